@@ -88,7 +88,29 @@ def sw_lead_zero(t):
 SWITCHES = [("to-dec", sw_to_dec), ("lead-zero", sw_lead_zero), ("hex-upper", sw_hex_upper), ("regs-upper", sw_regs_upper),
             ("mn-upper", sw_mn_upper), ("comma-spaced", sw_comma_sp), ("bracket-spaced", sw_bracket_sp), ("indent", sw_indent),
             ("trailing-blanks", sw_trail), ("comment", sw_comment)]
-EXTRA = [("comma-tight", sw_comma_tight), ("indent-tab", sw_indent_tab), ("to-hex", sw_to_hex)]
+def sw_indent_wide(t):
+    return " " * 150 + t
+
+
+def sw_comma_wide(t):
+    return t.replace(", ", "," + " " * 120)
+
+
+def sw_trail_wide(t):
+    return t + " " * 200 + "\t" * 20
+
+
+def sw_comment_long(t):
+    return t + " ;" + " long comment" * 40
+
+
+def sw_bracket_wide(t):
+    return re.sub(r"\[([^\]]*)\]", lambda m: "[" + " " * 60 + m.group(1) + " " * 60 + "]", t)
+
+
+EXTRA = [("comma-tight", sw_comma_tight), ("indent-tab", sw_indent_tab), ("to-hex", sw_to_hex), ("indent-150", sw_indent_wide),
+         ("comma-120-blanks", sw_comma_wide), ("trailing-220-blanks", sw_trail_wide), ("comment-500-chars", sw_comment_long),
+         ("bracket-120-blanks", sw_bracket_wide)]
 WRAPS = {"crlf": lambda t: t + "\r\n", "blank-before": lambda t: "\n" + t + "\n", "comment-line-before": lambda t: "; hello\n" + t + "\n",
          "label-before": lambda t: "start:\n" + t + "\n", "section-before": lambda t: "section .text\n" + t + "\n",
          "global-before": lambda t: "global f\n" + t + "\n", "blank-after": lambda t: t + "\n\n",
